@@ -1,4 +1,5 @@
 SPECIFICATION Spec
+CONSTANT WithLinger = FALSE
 CONSTANT Fix_HardExit = TRUE
 CONSTANT KillOnTimeout = FALSE
 INVARIANT WorkerGoneInTime
